@@ -720,16 +720,23 @@ def paths_part(ctx):
             shutil.rmtree(wd)
         wd.mkdir()
         stem = rng.choice(["x", "M001_sample", "data.v2", "a b"])
-        pin = wd / (stem + ".rtdc")
+        task = rng.choice(["compress", "repack", "condense", "join"])
+        # an input may carry any suffix when the suffix check is off — including the suffix of the
+        # task's own temporary file (finding F64)
+        insuf = ".rtdc"
+        if task != "join" and rng.random() < 0.25:
+            insuf = rng.choice([".rtdc~", ".rtdc~", ".h5", ".rtdc.bak"])
+        pin = wd / (stem + insuf)
         gen.make_rtdc(pin, range(6), feats=["deform", "area_um"], rid=U.RID)
         name = gen_out_name(rng, stem)
-        same = rng.random() < 0.7
+        if insuf == ".rtdc~" and rng.random() < 0.6:
+            name = rng.choice([stem, stem + ".rtdc"])       # temporary path == the input
+        same = rng.random() < (0.9 if insuf == ".rtdc~" else 0.7)
         odir = wd if same else wd / "other"
         odir.mkdir(exist_ok=True)
         po = odir / name
-        task = rng.choice(["compress", "repack", "condense", "join"])
         exp = expected_out(po)
-        refuse = exp.resolve() == pin.resolve()
+        refuse = pin.resolve() in (exp.resolve(), exp.with_suffix(".rtdc~").resolve())
         # bystanders: files that a wrong suffix rule could hit
         by = {}
         for cand in {po.with_suffix(".rtdc"), odir / (name.split(".")[0] + ".rtdc"),
@@ -751,12 +758,17 @@ def paths_part(ctx):
                                   meta={"experiment": {"time": "11:00:00", "run index": 2}})
                     before.add(pin2)
                     ret = cli.join(paths_in=[pin, pin2], path_out=po, ret_path=True)
+                elif insuf != ".rtdc":
+                    ret = getattr(cli, task)(path_in=pin, path_out=po, ret_path=True,
+                                             check_suffix=False)
                 else:
                     ret = getattr(cli, task)(path_in=pin, path_out=po, ret_path=True)
         except BaseException as e:  # noqa
             err = f"{type(e).__name__}: {e}"[:160]
         label = f"{task}(path_in={pin.name!r}, path_out={'' if same else 'other/'}{name!r})"
-        ctx.case(("paths", task, stem, name, same), nontrivial=po.suffix != ".rtdc")
+        ctx.case(("paths", task, stem, insuf, name, same), nontrivial=po.suffix != ".rtdc")
+        if insuf != ".rtdc":
+            ctx.stat("paths:input_suffix" + insuf)
         ctx.stat("paths:" + ("refused" if refuse else "suffix_ok" if po.suffix == ".rtdc"
                              else "suffix_corrected"))
         probs = []
@@ -766,7 +778,8 @@ def paths_part(ctx):
             probs.append(f"{label}: the input file was modified")
         if refuse:
             if err is None:
-                probs.append(f"{label}: output resolves to the input but the task did not refuse")
+                probs.append(f"{label}: output or temporary path resolves to the input but the "
+                             f"task did not refuse")
         elif err is not None:
             probs.append(f"{label} raised {err}")
         else:
@@ -786,10 +799,10 @@ def paths_part(ctx):
                 probs.append(f"{label}: the unrelated file {cand.name!r} was deleted or changed")
         for pr in probs[:2]:
             ctx.violation("spec", pr, {"paths": {"task": task, "stem": stem, "name": name,
-                                                 "same_dir": same}})
+                                                 "same_dir": same, "insuf": insuf}})
         if "." in stem or " " in stem or " " in name:
             pass
-        lines.append(f"paths {(stem + '.rtdc').replace(' ', '_')} {name.replace(' ', '_')} {int(same)}")
+        lines.append(f"paths {(stem + insuf).replace(' ', '_')} {name.replace(' ', '_')} {int(same)}")
         wants.append((label, "refused" if err is not None and refuse else
                       None if err is not None else "out=" + pathlib.Path(ret).name.replace(" ", "_")))
         shutil.rmtree(wd, ignore_errors=True)
